@@ -60,6 +60,7 @@ type zzNode struct {
 	height int64
 	gov    *ctrlertypes.GovParams
 	nvals  int
+	lastSig []byte // signature produced by the latest encode
 }
 
 func zzOpenApp(dir string) *RigoApp {
@@ -182,6 +183,7 @@ type zzTx struct {
 	signer   int  // key index used to sign (normally == from)
 	chain    string
 	mutate   int // != 0: alter one signed field after signing (C03)
+	forceSig []byte // != nil: carry this signature instead of a fresh one (C03: signature lifted from another transaction)
 }
 
 func (n *zzNode) toAddr(i int) types.Address {
@@ -225,6 +227,10 @@ func (n *zzNode) encodeTo(t *zzTx, to types.Address) []byte {
 		panic(err)
 	}
 	tx.Sig = sig
+	n.lastSig = sig
+	if t.forceSig != nil {
+		tx.Sig = t.forceSig
+	}
 	switch t.mutate {
 	case 1:
 		tx.Amount = new(uint256.Int).Add(tx.Amount, uint256.NewInt(1))
